@@ -42,6 +42,11 @@ def verify(unit, run, post=None, timeout_ms=10000, feas_timeout_ms=3000, want_sa
             continue
         for ob in p.obligations:
             r = discharge(ob, p.inputs, timeout_ms)
+            if r['verdict'] == 'unknown' and 'timeout' in str(r.get('reason', '')) or (r['verdict'] == 'unknown' and 'canceled' in str(r.get('reason', ''))):
+                # a budget sized for an idle machine must not flip the verdict when all cores are busy: once more, four times the budget
+                t_first = r['time']
+                r = discharge(ob, p.inputs, timeout_ms * 4)
+                r['time'] += t_first
             if r['verdict'] == 'unknown' and use_cvc5:
                 t1 = time.time()
                 try:
